@@ -357,3 +357,30 @@ Example global_loading_nonvacuous :
   global_loading (run_state true st [Go 1; DisposeS 9]) = false /\
   global_loading (run_state true st [DisposeS 9; Go 1]) = false.
 Proof. cbn. repeat split; reflexivity. Qed.
+
+(* after the root has been disposed nothing is loading any more, whatever was pending (every counter died with its owner) *)
+Lemma fold_cancel_frame fx doomed l : forall acc,
+  let st' := fst (fold_left (cancel_one fx doomed) l acc) in
+  scopes st' = scopes (fst acc) /\ alive st' = alive (fst acc) /\ root_alive st' = root_alive (fst acc).
+Proof.
+  induction l as [|ti l IH]; intros acc; cbn; [auto|].
+  destruct (cancel_one_frame fx doomed acc ti) as (_ & Fs & Fa & Fr).
+  specialize (IH (cancel_one fx doomed acc ti)). cbn zeta in IH. rewrite Fs, Fa, Fr in IH. exact IH.
+Qed.
+
+Lemma global_loading_dead st : alive st = [] -> root_alive st = false -> global_loading st = false.
+Proof.
+  intros Ha Hr. unfold global_loading. apply not_true_is_false. intros Hex. apply existsb_exists in Hex.
+  destruct Hex as [sc [_ Hb]]. apply andb_true_iff in Hb. destruct Hb as [Hb _]. apply andb_true_iff in Hb. destruct Hb as [_ Hc].
+  revert Hc. unfold counter_alive, owner_alive. destruct (find_scope st (s_id sc)) as [s|]; [|discriminate].
+  rewrite Hr, Ha. destruct (s_parent s) as [q|]; [unfold mem; cbn [existsb]|]; discriminate.
+Qed.
+
+Theorem global_idle_after_end fx st : global_loading (fst (step_end fx st)) = false.
+Proof.
+  unfold step_end, cancel_tasks.
+  pose proof (fold_cancel_frame fx (fun _ => true) (tasks st)
+                (AState (scopes st) (tasks st) [] false (progress st) (counters st), [])) as H.
+  cbn zeta in H. destruct H as (_ & Ha & Hr).
+  apply global_loading_dead; [exact Ha|exact Hr].
+Qed.
